@@ -118,8 +118,19 @@ pub fn compare_results(q: &Query, reference: &[Row], got: &[Row], unlimited_ref:
             return Err(format!("row counts differ under LIMIT/OFFSET: reference {} vs {}", reference.len(), got.len()));
         }
         if let Some(u) = unlimited_ref {
-            if !multiset_included(got, u) {
-                return Err(format!("rows under LIMIT/OFFSET are not contained in the un-limited result: {} vs un-limited {}", fmt_rows(got), fmt_rows(u)));
+            // the un-limited reference comes from `Query::print_unlimited`: the original columns
+            // first, then the ORDER BY keys that are not selected
+            let n = q.select.len();
+            let up: Vec<Row> = u.iter().map(|r| r[..n.min(r.len())].to_vec()).collect();
+            if !multiset_included(got, &up) {
+                return Err(format!("rows under LIMIT/OFFSET are not contained in the un-limited result: {} vs un-limited {}", fmt_rows(got), fmt_rows(&up)));
+            }
+            if order_is_total(q, u) && reference != got {
+                return Err(format!(
+                    "the order is total on the un-limited result, so the rows under LIMIT/OFFSET are determined, but they differ: reference {} vs {}",
+                    fmt_rows(reference),
+                    fmt_rows(got)
+                ));
             }
         }
     }
@@ -129,13 +140,15 @@ pub fn compare_results(q: &Query, reference: &[Row], got: &[Row], unlimited_ref:
 /// Is the order given by ORDER BY total on the result (no two rows tie on all keys while
 /// differing elsewhere)? Then LIMIT results are unique and compared exactly.
 pub fn order_is_total(q: &Query, unlimited: &[Row]) -> bool {
-    if q.order_by.is_empty() {
+    let a = q.augmented();
+    if a.order_by.is_empty() || unlimited.iter().any(|r| r.len() != a.select.len()) {
         return false;
     }
-    let keys = project(unlimited, &q.order_by);
+    let n = q.select.len();
+    let keys = project(unlimited, &a.order_by);
     for i in 0..keys.len() {
         for j in i + 1..keys.len() {
-            if keys[i] == keys[j] && unlimited[i] != unlimited[j] {
+            if keys[i] == keys[j] && unlimited[i][..n] != unlimited[j][..n] {
                 return false;
             }
         }
